@@ -26,7 +26,7 @@ UNIT_DRIVERS = {
 PROP_DRIVERS = {
     "C01": ["history", "undoall"], "C02": ["history", "undoall"], "C03": ["history", "undoall"], "C04": ["atomic"], "C08": ["finite"], "C09": ["parens"], "C18": ["entry"], "C24": ["x:roundtrip"], "C25": ["x:importcrash"], "C11": ["colcodec", "builtins", "f4"],
     "C12": ["refshift"], "C13": ["refshift"], "C14": ["refshift"], "C15": [], "C17": [], "C21": ["dates"], "C22": ["colcodec"],
-    "C23": ["errnames", "fnnames"], "C27": ["cols", "rows"], "C28": ["select", "selinv"], "C29": ["cols", "rows"], "C30": ["styles", "cols", "rows"], "C33": [], "C34": ["f4"],
+    "C23": ["errnames", "fnnames"], "C27": ["cols", "rows", "undoall"], "C28": ["select", "selinv"], "C29": ["cols", "rows"], "C30": ["styles", "cols", "rows"], "C33": [], "C34": ["f4"],
 }
 
 
